@@ -3,7 +3,10 @@
 Structure of the check (hash-seed variation needs fresh interpreters):
 
   parent  : generates abstract *layouts* (2-5 attrs classes / dataclasses over a 6-name field alphabet, defaults,
-            Literal fields with overlapping value sets, optional None member, a few with rename overrides),
+            Literal fields with overlapping value sets, optional None member, a few with rename overrides; 30 % with
+            derived attributes - init=False with a default, a factory or an attrs `takes_self` default - whose names
+            coincide with (mostly required, discriminating) attributes of other members: BaseConverter's unstructure emits
+            them, Converter's does not, and the model is fed the payload the converter really produced),
             member instances, payload variants and the member orders to try (all for n <= 4, sampled beyond);
   workers : one subprocess per PYTHONHASHSEED; each receives the whole batch as JSON on stdin, realises the classes,
             and for every (layout, order) — with a FRESH converter — reports whether the union hook can be created and
@@ -47,23 +50,28 @@ def _worker_realise(L, tag):
             attribs = {}
             for f in c["fields"]:
                 ty = Literal[tuple(f["lit"])] if f["lit"] is not None else int
+                kw = {"init": False} if f.get("init") is False else {}
                 if f["dflt"] == "req":
                     attribs[f["name"]] = attr.ib(type=ty)
                 elif f["dflt"] == "const":
-                    attribs[f["name"]] = attr.ib(type=ty, default=f["dv"])
+                    attribs[f["name"]] = attr.ib(type=ty, default=f["dv"], **kw)
+                elif f["dflt"] == "self":       # `@x.default def _(self): ...`
+                    attribs[f["name"]] = attr.ib(type=ty, default=attr.Factory(lambda self, v=f["dv"]: v, takes_self=True),
+                                                 **kw)
                 else:
-                    attribs[f["name"]] = attr.ib(type=ty, default=attr.Factory(lambda v=f["dv"]: v))
+                    attribs[f["name"]] = attr.ib(type=ty, default=attr.Factory(lambda v=f["dv"]: v), **kw)
             cl = attr.make_class(name, attribs)
         else:
             fs = []
             for f in c["fields"]:
                 ty = Literal[tuple(f["lit"])] if f["lit"] is not None else int
+                kw = {"init": False} if f.get("init") is False else {}
                 if f["dflt"] == "req":
                     fs.append((f["name"], ty))
                 elif f["dflt"] == "const":
-                    fs.append((f["name"], ty, dataclasses.field(default=f["dv"])))
+                    fs.append((f["name"], ty, dataclasses.field(default=f["dv"], **kw)))
                 else:
-                    fs.append((f["name"], ty, dataclasses.field(default_factory=lambda v=f["dv"]: v)))
+                    fs.append((f["name"], ty, dataclasses.field(default_factory=lambda v=f["dv"]: v, **kw)))
             cl = dataclasses.make_dataclass(name, fs)
         classes.append(cl)
     return classes
@@ -207,8 +215,28 @@ def gen_layout(rng, lid, tier):
             for cj, c in enumerate(classes):
                 c["fields"] = [f for f in c["fields"] if f["name"] != nm]
             classes[ci]["fields"].insert(0, {"name": nm, "key": nm, "lit": None, "dflt": "req", "dv": None})
-    L = {"id": lid, "conv": rng.choice(["gen", "gen", "base"]), "has_none": has_none, "renames": renames,
-         "classes": classes}
+    init_false = rng.random() < 0.3
+    if init_false:
+        # derived attributes (init=False, with a default): their NAMES coincide with attributes - preferably required,
+        # discriminating ones - of other members.  BaseConverter's unstructure emits them, Converter's does not.
+        for _ in range(rng.choice([1, 1, 2, 3])):
+            b = rng.randrange(n)
+            cand = [f for f in classes[b]["fields"] if f["lit"] is None and f["key"] == f["name"] and f.get("init") is not False]
+            req_c = [f for f in cand if f["dflt"] == "req"]
+            if not cand:
+                continue
+            g = rng.choice(req_c if req_c and rng.random() < 0.8 else cand)
+            others = [a for a in range(n) if a != b and all(h["name"] != g["name"] and h["key"] != g["name"]
+                                                          for h in classes[a]["fields"])]
+            if not others:
+                continue
+            a = rng.choice(others)
+            kind = classes[a]["kind"]
+            classes[a]["fields"].append({"name": g["name"], "key": g["name"], "lit": None,
+                                         "dflt": rng.choice(["const", "factory", "self"] if kind == "attrs" else ["const", "factory"]),
+                                         "dv": rng.choice([0, 1, 2]), "init": False})
+    L = {"id": lid, "conv": rng.choice(["gen", "base"] if init_false else ["gen", "gen", "base"]), "has_none": has_none,
+         "renames": renames, "classes": classes}
     # payloads: per member one instance with every field given, one with the defaults taken, plus omission variants
     payloads = []
     if has_none:
@@ -217,7 +245,7 @@ def gen_layout(rng, lid, tier):
         for mode in ("all", "defaults"):
             args = {}
             for f in c["fields"]:
-                if mode == "defaults" and f["dflt"] != "req":
+                if (mode == "defaults" and f["dflt"] != "req") or f.get("init") is False:
                     continue
                 args[f["name"]] = rng.choice(f["lit"]) if f["lit"] is not None else rng.choice([0, 1, 2])
             payloads.append({"member": ci, "args": args, "omit": [], "variant": "full"})
@@ -397,6 +425,13 @@ def layout_source(L):
             elif f["dflt"] == "factory":
                 d = (f" = attrs.Factory(lambda: {f['dv']!r})" if c["kind"] == "attrs"
                      else f" = dataclasses.field(default_factory=lambda: {f['dv']!r})")
+            if f.get("init") is False:
+                mod = "attrs.field" if c["kind"] == "attrs" else "dataclasses.field"
+                d = (f" = {mod}(init=False, default={f['dv']!r})" if f["dflt"] == "const" else
+                     f" = attrs.field(init=False, default=attrs.Factory(lambda self: {f['dv']!r}, takes_self=True))"
+                     if f["dflt"] == "self" else
+                     f" = attrs.field(init=False, factory=lambda: {f['dv']!r})" if c["kind"] == "attrs" else
+                     f" = dataclasses.field(init=False, default_factory=lambda: {f['dv']!r})")
             rn = f"   # renamed to {f['key']!r}" if f["key"] != f["name"] else ""
             lines.append(f"    {f['name']}: {ty}{d}{rn}")
     lines.append(f"# converter: {'Converter' if L['conv'] == 'gen' else 'BaseConverter'}(); None member: {L['has_none']}")
@@ -447,6 +482,12 @@ def fixed_layouts():
     out.append(mk(-7, [{"kind": "attrs", "fields": [fld("a")]}, {"kind": "dc", "fields": [fld("a"), fld("b")]}],
                   [{"member": None, "args": {}, "omit": [], "variant": "none"}, full(0, a=1), full(1, a=1, b=1)],
                   has_none=True, conv="base"))
+    # derived (init=False) attribute whose name is the other member's discriminating attribute: Square{side, area=…(init=False)}
+    # | Blob{area} (seeded change "init=False attributes are not usable names"); BaseConverter emits `area`, Converter does not
+    for lid, conv, kind in ((-8, "base", "attrs"), (-9, "gen", "attrs"), (-10, "base", "dc")):
+        sq = {"kind": kind, "fields": [fld("a"), dict(fld("b", dflt="const", dv=2), init=False)]}
+        out.append(mk(lid, [sq, {"kind": kind, "fields": [fld("b")]}, {"kind": "attrs", "fields": [fld("c")]}],
+                      [full(0, a=2), full(1, b=4), full(2, c=1)], conv=conv))
     return out
 
 
@@ -499,6 +540,8 @@ def evaluate(chk, drv, layouts, wres, seeds, count=True):
         if count:
             chk.note("conv:" + L["conv"], "none-member" if L["has_none"] else "no-none",
                      "renames" if L["renames"] else "default-config",
+                     "init-false-attr:" + ("yes" if any(f.get("init") is False for c in L["classes"] for f in c["fields"])
+                                           else "no"),
                      "shared-payload" if shared else "distinct-payloads")
             for c in L["classes"]:
                 chk.note("kind:" + c["kind"])
@@ -521,7 +564,7 @@ def neighbours(L, rng, base_id):
             cs = json.loads(json.dumps(L["classes"]))
             del cs[ci]["fields"][fi]
             variants.append(cs)
-            if f["lit"] is None:
+            if f["lit"] is None and f.get("init") is not False:
                 cs = json.loads(json.dumps(L["classes"]))
                 g = cs[ci]["fields"][fi]
                 if g["dflt"] == "req":
@@ -538,7 +581,7 @@ def neighbours(L, rng, base_id):
         for ci, c in enumerate(cs):
             for mode in ("all", "defaults"):
                 args = {f["name"]: (f["lit"][0] if f["lit"] is not None else 1) for f in c["fields"]
-                        if not (mode == "defaults" and f["dflt"] != "req")}
+                        if not (mode == "defaults" and f["dflt"] != "req") and f.get("init") is not False}
                 payloads.append({"member": ci, "args": args, "omit": [], "variant": "full"})
                 om = [f["key"] for f in c["fields"] if f["dflt"] != "req" and not dreq(c, f)]
                 if om and mode == "all":
